@@ -38,13 +38,22 @@ class BytesVal(SVal):
     def py_len(self, cx):
         return SInt(z3.Length(self.t))
 
+    def meth_decode(self, cx, enc="utf-8"):
+        return SStr(self.t)  # ASCII content (T5: the JSON emitted by pydantic is ASCII); bytes == code points
+
+
+def exact_chunk(rem, n):
+    """read(n) on a regular file: exactly the next min(n, remaining) bytes"""
+    return z3.SubString(rem, 0, z3.If(n <= z3.Length(rem), n, z3.Length(rem)))
+
 
 class Stream(SVal):
     """Binary stream with ghost `remaining` bytes."""
 
-    def __init__(self, remaining, whole=None):
+    def __init__(self, remaining, whole=None, exact=False):
         self.remaining = remaining
         self.whole = whole if whole is not None else remaining
+        self.exact = exact  # regular file: read(n) returns exactly min(n, remaining) bytes
 
     def py_truth(self, cx):
         return True
@@ -59,14 +68,21 @@ class Stream(SVal):
             return BytesVal(r)
         nt = term(n)
         cx.oblige("call-pre:stream.read:positive-size", "call-pre", nt > 0)
-        k = z3.Int(fresh_name("read_len"))
         rem = self.remaining
+        if self.exact:
+            chunk = exact_chunk(rem, nt)
+            self.remaining = z3.SubString(rem, z3.Length(chunk), z3.Length(rem) - z3.Length(chunk))
+            return BytesVal(chunk)
+        k = z3.Int(fresh_name("read_len"))
         cx.assume(z3.And(k >= 0, k <= nt, k <= z3.Length(rem), z3.Implies(z3.Length(rem) > 0, k > 0)))
         chunk = z3.SubString(rem, 0, k)
         self.remaining = z3.SubString(rem, k, z3.Length(rem) - k)
         return BytesVal(chunk)
 
     def meth_seek(self, cx, k):
+        if isinstance(k, int) and k == 0:
+            self.remaining = self.whole
+            return k
         kt = term(k)
         w = self.whole
         cx.oblige("call-pre:stream.seek:non-negative", "call-pre", kt >= 0)
